@@ -98,9 +98,11 @@ Definition opt_holds {P} (o : mopt) (pats : list P) (pm : P -> Prop) : Prop :=
 
 Section Spec.
   Variable rx_comm rx_ext rx_large : N -> N -> bool.
-  (* regular expression over an AS path (pattern id, segments): what a general
-     as-path pattern means.  The code never consults it (finding C14-1). *)
-  Variable rx_aspath : N -> list (list N) -> bool.
+  (* what a general as-path pattern (by id) says of the path rendered as text *)
+  Variable rx_aspath : N -> list N -> bool.
+  (* origin validation of (prefix, origin AS): 0 NotFound, 1 Valid, 2 Invalid;
+     the outer None = no RPKI table in scope *)
+  Variable rpki : option (nlri -> N -> option N).
 
   Definition comm_pat_matches (vals : list N) (p : cpat) : Prop :=
     exists c, In c vals /\
@@ -117,13 +119,32 @@ Section Spec.
     | None => None
     end.
 
-  Definition aspath_pat_holds (segs : option (list (list N))) (p : single + N) : Prop :=
-    match segs with
-    | None => False
-    | Some sg => match p with
-                 | inl s => single_says s (concat sg)
-                 | inr id => rx_aspath id sg = true
-                 end
+  (* the bytes of the route's AS_PATH attribute *)
+  Definition route_path (l : list attr) : option (list N) :=
+    match find_attr AS_PATH l with
+    | Some a => attr_binary a
+    | None => None
+    end.
+
+  (* a single pattern speaks about the AS numbers in order, a general pattern
+     about the path as GoBGP prints it ([render_path]; its wire-level meaning is
+     Proofs/PolicyWire.v render_path_enc) *)
+  Definition aspath_pat_holds (l : list attr) (p : single + N) : Prop :=
+    match p with
+    | inl s => exists sg, route_segs l = Some sg /\ single_says s (concat sg)
+    | inr id => exists b, route_path l = Some b /\ rx_aspath id (render_path b) = true
+    end.
+
+  (* the AS origin validation looks at: the last AS of the AS_PATH when it ends
+     in a non-empty AS_SEQUENCE, the speaker's own AS otherwise *)
+  Definition route_origin (x : ctx) (r : rstate) : option N :=
+    match find_attr AS_PATH (r_attrs r) with
+    | Some a => match as_path_origin a with
+                | Ok (Some o) => Some o
+                | Ok None => Some (s_local_asn (x_src x))
+                | Panic _ => None
+                end
+    | None => Some (s_local_asn (x_src x))
     end.
 
   Definition apset_pats (s : apset) : list (single + N) := map inl (ap_single s) ++ map inr (ap_regex s).
@@ -150,7 +171,7 @@ Section Spec.
         | MInvert => ~ exists n, In n l /\ net_contains n (x_peer x) = true
         | _ => exists n, In n l /\ net_contains n (x_peer x) = true
         end
-    | CSet _ o (SAsPath s) => opt_holds o (apset_pats s) (aspath_pat_holds (route_segs (r_attrs r)))
+    | CSet _ o (SAsPath s) => opt_holds o (apset_pats s) (aspath_pat_holds (r_attrs r))
     | CSet _ o (SComm l) => opt_holds o l (comm_pat_matches (communities_from_attr (r_attrs r)))
     | CSet _ o (SExt l) =>
         opt_holds o l (fun id => exists c, In c (filter ext_has_string (ext_communities_from_attr (r_attrs r)))
@@ -161,7 +182,9 @@ Section Spec.
         exists a b, find_attr AS_PATH (r_attrs r) = Some a /\ attr_binary a = Some b /\
                     cmp_holds c (aslen_loop (length b) b 0 mod 2 ^ 32) v
     | CNexthop l => exists nh, r_nh r = Some nh /\ exists i, In i l /\ ip_eqb (nh_addr nh) i = true
-    | CRpki _ => False                                  (* no RPKI table in scope *)
+    | CRpki st =>
+        exists validate asn, rpki = Some validate /\ route_origin x r = Some asn /\
+                             validate (x_net x) asn = Some st
     | CLocalPrefEq v => val_is LOCAL_PREF v (r_attrs r)
     | CMedEq v => val_is MED v (r_attrs r)
     | COriginEq v => val_is ORIGIN v (r_attrs r)
